@@ -146,7 +146,7 @@ func (sc c12Script) body(c *explore.Ctx) {
 				outcome = append(outcome, step+"=ok")
 			}
 			checkInUse(step)
-		case "with", "withfunc", "nested", "reader":
+		case "with", "withfunc", "nested", "reader", "witherr", "withfuncpanic":
 			if sec == nil {
 				continue
 			}
@@ -166,6 +166,10 @@ func (sc c12Script) body(c *explore.Ctx) {
 					return nil
 				}
 				switch step {
+				case "witherr":
+					err = sec.WithBytes(func(b []byte) error { cb(b); return errC11Callback })
+				case "withfuncpanic":
+					_, err = sec.WithBytesFunc(func(b []byte) ([]byte, error) { cb(b); panic(c11Panic) })
 				case "with":
 					err = sec.WithBytes(cb)
 				case "withfunc":
@@ -193,11 +197,40 @@ func (sc c12Script) body(c *explore.Ctx) {
 					seen = nil
 				}
 			})
+			if step == "withfuncpanic" && called > 0 {
+				// the callback's own panic comes out to the caller; the secret must be released all the same
+				if !strings.Contains(pan, c11Panic) {
+					c.Failf("callback-panic-swallowed", "%s: the callback panicked but the caller saw panic=%q err=%v", step, pan, err)
+				}
+				pan = ""
+				if p := c12PageOf(mc, sec); p != nil && p.Mapped && p.Prot == doubles.ProtRO {
+					if n, _ := faultsIn(from); n == 0 {
+						c.Failf("panicking-reader-leaves-readable", "%s: after the callback panicked the page is still readable (the reader was never released); calls: %s", step, c12Calls(mc))
+					}
+				}
+				outcome = append(outcome, step+"=panicked")
+				checkInUse(step)
+				continue
+			}
 			if pan != "" {
 				c.Failf("panic:access", "%s panicked: %s", step, pan)
 				return
 			}
 			nf, ops := faultsIn(from)
+			if step == "witherr" && called > 0 {
+				// the callback's error is reported (possibly together with a failing release), never swallowed
+				if err == nil || (nf == 0 && !strings.Contains(err.Error(), errC11Callback.Error())) {
+					c.Failf("callback-error-lost", "%s: the callback returned an error but WithBytes returned %v (faults %v)", step, err, ops)
+				}
+				if nf == 0 {
+					if p := c12PageOf(mc, sec); p != nil && p.Mapped && p.Prot != doubles.ProtNone {
+						c.Failf("failing-reader-leaves-accessible", "%s: after the callback failed the page has protection %d", step, p.Prot)
+					}
+				}
+				outcome = append(outcome, step+"=cberr")
+				checkInUse(step)
+				continue
+			}
 			switch {
 			case closedOK:
 				// the secret was closed successfully earlier in the script: every access must be refused
@@ -354,6 +387,8 @@ func c12Scripts(thorough bool) []c12Script {
 			c12Script{name: impl + "/new-close-close", impl: impl, steps: []string{"new", "close", "close"}},
 			c12Script{name: impl + "/rand-withfunc-with-close", impl: impl, steps: []string{"rand", "withfunc", "with", "close"}},
 			c12Script{name: impl + "/new-close-with-close", impl: impl, steps: []string{"new", "close", "with", "close"}},
+			c12Script{name: impl + "/new-witherr-with-close", impl: impl, steps: []string{"new", "witherr", "with", "close"}},
+			c12Script{name: impl + "/new-withfuncpanic-with-close", impl: impl, steps: []string{"new", "withfuncpanic", "with", "close"}},
 			c12Script{name: impl + "/new-close-reader-withfunc", impl: impl, steps: []string{"new", "close", "reader", "withfunc"}},
 		)
 		if thorough {
